@@ -318,7 +318,7 @@ func timedOracle(name string, check func(cScenario, cResult) (string, string)) f
 		}
 		for _, s := range seeds {
 			toks := strings.Fields(s)
-			if len(toks) > 1 && (toks[0] == "client4h" || toks[0] == "client6h") && name == "c12" {
+			if len(toks) > 1 && (toks[0] == "client4h" || toks[0] == "client6h") && (name == "c12" || name == "c11") {
 				func() {
 					defer func() { recover() }()
 					h := cliParseHistory(toks[0], toks[1:])
@@ -326,7 +326,7 @@ func timedOracle(name string, check func(cScenario, cResult) (string, string)) f
 					_, bad := cliRunHistory(h)
 					res.Evaluations++
 					if bad != "" {
-						res.fail(Failure{Oracle: name, Input: h.line(), What: bad, Class: "tx-bytes"})
+						res.fail(Failure{Oracle: name, Input: h.line(), What: histWhat(bad), Class: histClass(bad)})
 					}
 				}()
 			}
@@ -346,7 +346,7 @@ func timedOracle(name string, check func(cScenario, cResult) (string, string)) f
 			}
 		}
 		for i := 0; i < n; i++ {
-			if name == "c12" && i%10 == 9 {
+			if (name == "c12" || name == "c11") && i%10 == 9 {
 				// "the transmitted bytes must equal the request's encoding each time": successive
 				// calls with the same message object, changed between calls
 				h := cliGenHistory(r.Fork(), i%4 == 1)
@@ -356,7 +356,7 @@ func timedOracle(name string, check func(cScenario, cResult) (string, string)) f
 				res.Tags["history-same-message-mutated"]++
 				seen[hashStr(h.line())] = struct{}{}
 				if bad != "" {
-					res.fail(Failure{Oracle: name, Input: h.line(), What: bad, Class: "tx-bytes"})
+					res.fail(Failure{Oracle: name, Input: h.line(), What: histWhat(bad), Class: histClass(bad)})
 				} else if strings.Contains(out, "bad") || strings.Contains(out, "hang") || strings.Contains(out, ":other") {
 					res.fail(Failure{Oracle: name, Input: h.line(), What: "history: " + out, Class: "history"})
 				}
@@ -427,6 +427,21 @@ func genSlowCloseScenario(r *Rng, v6 bool) (cScenario, []string) {
 	sc.evs = append(sc.evs, cEvent{t: t, kind: "clo", sync: r.Chance(1, 2)})
 	sc.H = t + sc.T
 	return sc, tags
+}
+
+// cliRunHistory reports "class|text" or plain text (class tx-bytes)
+func histClass(bad string) string {
+	if i := strings.IndexByte(bad, '|'); i > 0 {
+		return bad[:i]
+	}
+	return "tx-bytes"
+}
+
+func histWhat(bad string) string {
+	if i := strings.IndexByte(bad, '|'); i > 0 {
+		return bad[i+1:]
+	}
+	return bad
 }
 
 func init() {
